@@ -193,6 +193,16 @@ def prepare_evo_aspirate_dispense_parameters(
             # User-specified integers from 1-8 need to be converted to Tecan logic
             tip = int_to_tip(tip)
         tecan_tips.append(tip)
+    if Tip.Any in tecan_tips:
+        raise ValueError("Invalid tips: Tip.Any cannot be used in EVO commands. Select the tips explicitly.")
+    if len(set(tecan_tips)) != len(tecan_tips):
+        raise ValueError(f"Invalid tips: every tip can be selected only once, but got {tips}.")
+    if len(set(wells_list)) != len(wells_list):
+        raise ValueError(f"Invalid wells: every well can be selected only once, but got {wells_list}.")
+    # EVOware assigns the selected tips to the selected wells in ascending order.
+    # Individual volumes are only unambiguous if wells and tips are given in that order.
+    if len(set(volume_list)) > 1 and (sorted(tecan_tips) != tecan_tips or sorted(wells_list) != wells_list):
+        raise ValueError("Invalid wells/tips: they must be in ascending order when individual volumes are used.")
 
     if arm is None:
         raise ValueError("Missing required paramter: arm")
@@ -451,6 +461,10 @@ def prepare_evo_wash_parameters(
             # User-specified integers from 1-8 need to be converted to Tecan logic
             tip = int_to_tip(tip)
         tecan_tips.append(tip)
+    if Tip.Any in tecan_tips:
+        raise ValueError("Invalid tips: Tip.Any cannot be used in EVO commands. Select the tips explicitly.")
+    if len(set(tecan_tips)) != len(tecan_tips):
+        raise ValueError(f"Invalid tips: every tip can be selected only once, but got {tips}.")
 
     if waste_location is None:
         raise ValueError("Missing required parameter: waste_location")
